@@ -248,7 +248,7 @@ class AndGate(IMultiplier):
       self.output.is_floating_point = self.input.is_floating_point |\
                                       self.weights.is_floating_point
 
-      if weight_quantizer.name == "binary" and weight_quantizer.use_01:
+      if weight_quantizer.mode == 4:
         # binary(0,1) * datatype -> int_bits = datatype.int_bits
         self.output.int_bits = input_quantizer.int_bits
       else:
